@@ -120,6 +120,49 @@ def lag_scenario(seed, when):
             "steps": steps, "settle_ms": 300, "step_timeout_ms": 4000, "drain_max_ms": 8000}
 
 
+def expiry_scan_scenario(seed):
+    """C09, streaming read path: the clock passes a `time:N` frame's expiry while the history scan is under way (the
+    reader is parked before its first delivery). Frames the scan reaches afterwards are judged by the clock as it is then."""
+    r = random.Random(seed)
+    n_ms = r.choice([1500, 60000, 3600000])
+    k = r.randint(1, 3)                       # position of the first expiring frame: never the parked one
+    history = []
+    for i in range(k + r.randint(1, 4)):
+        ttl = ("time:%d" % n_ms) if (i == k or (i > k and r.random() < 0.3)) else r.choice([None, "forever"])
+        history.append({"topic": hx("h"), "ctx": ZERO, "ttl": ttl})
+    reader = {"follow": r.choice(["off", "on"]), "tail": False, "last": None, "limit": None, "ctx": None, "consume": "eager"}
+    steps = [["start_reader", "r1"], ["run", "r1", "hist.send"], ["clock_after", len(history) - 1, n_ms + r.choice([0, 1, 500])],
+             ["free", None], ["join", 5000], ["sleep", 150]]
+    return {"name": "expiry-scan-%d" % seed, "history": history, "writers": {}, "readers": {"r1": reader}, "steps": steps,
+            "settle_ms": 200, "step_timeout_ms": 3000, "drain_max_ms": 3000, "expiry_scan": True}
+
+
+def expiry_scan_oracle(spec, res):
+    """a `time:N` frame is never returned by a stream read once N ms have passed since its id timestamp"""
+    if "readers" not in res:
+        return [{"prop": "C09", "why": "worker crashed", "detail": res.get("crash")}]
+    hist = res["history"]
+    out = res["readers"]["r1"]["out"]
+    got = [f["id"] for f in out if topic_of(f) not in ("xs.threshold", "xs.pulse")]
+    # where was the scan when the clock moved? every sync-point arrival parks the reader until it is released, and the
+    # clock entry is logged under the same lock: the last hist.send before it names the frame the scan was holding
+    log = res.get("log", [])
+    ic = next((k for k, e in enumerate(log) if e["point"] == "clock"), len(log))
+    held = [e["frame"] for e in log[:ic] if e["actor"] == "r1" and e["point"] == "hist.send"]
+    ids = [f["id"] for f in hist]
+    upto = ids.index(held[-1]) if held and held[-1] in ids else -1
+    want = []
+    for i, (h, f) in enumerate(zip(spec["history"], hist)):
+        if i <= upto or not (h.get("ttl") or "").startswith("time:"):
+            want.append(f["id"])      # examined before the clock moved; frames that do not expire: always
+    fails = []
+    if got != want:
+        late = [i for i in got if i not in want]
+        fails.append({"prop": "C09", "why": "a time:N frame was returned by a stream read after its time had passed" if late
+                      else "the stream read lost a frame that had not expired", "got": got, "want": want})
+    return fails
+
+
 def stress_scenario(seed, writers=8, per=120):
     """hook-free second detector: many concurrent appenders against a poller and a follower"""
     ws = {"w%d" % i: [{"topic": hx("s%d" % i), "ctx": ZERO} for _ in range(per)] for i in range(writers)}
